@@ -351,7 +351,28 @@ pub fn boundary_number(rng: &mut Rng) -> String {
     }
 }
 
+/// One JSON string in six gets layout noise (doubled prefix, whitespace, separators, case).
+fn noisy_json_hex(rng: &mut Rng, json_text: String) -> String {
+    if !rng.chance(1, 6) {
+        return json_text;
+    }
+    match serde_json::from_str::<String>(&json_text) {
+        Ok(inner) => serde_json::to_string(&mutate_hex_text(rng, &inner)).unwrap(),
+        Err(_) => json_text,
+    }
+}
+
 fn hex_data(rng: &mut Rng) -> String {
+    let t = hex_data_plain(rng);
+    noisy_json_hex(rng, t)
+}
+
+fn address_text(rng: &mut Rng) -> String {
+    let t = address_text_plain(rng);
+    noisy_json_hex(rng, t)
+}
+
+fn hex_data_plain(rng: &mut Rng) -> String {
     match rng.below(8) {
         0 => "\"0x\"".into(),
         1 => "\"\"".into(),
@@ -363,7 +384,7 @@ fn hex_data(rng: &mut Rng) -> String {
     }
 }
 
-fn address_text(rng: &mut Rng) -> String {
+fn address_text_plain(rng: &mut Rng) -> String {
     match rng.below(8) {
         0 => "null".into(),
         1 => "\"0x\"".into(),
